@@ -48,7 +48,7 @@ CHECKS = {
     'C08': (MC, '4/C08', 'explicit-state exploration of build programs vs independent Stim translator',
             'All flat programs of length <= 2 over all 26 operation classes, all N2(2) programs (blocks x counts), a two-level space, an annotation box (every target shape of detector / '
             'observable / shift, alone and inside a repeated block) and library constructors are exported; the exported program (REPEAT unrolled, fused targets split) must equal the '
-            'reference translation of the listing instruction by instruction, the multiset of instructions must be what the program's own leaves translate to (one block per operation class, registry counts set after build), and before/after unrolling agree as required.',
+            'reference translation of the listing instruction by instruction, the multiset of instructions must be what the leaves of the program translate to (one block per operation class, registry counts set after build), and before/after unrolling agree as required.',
             'bounded program spaces; reference translator mc/ref/stim_tr.py; Stim trusted as parser/printer'),
     'C11': (MC, '4/C11', 'explicit-state exploration of nested build programs + exhaustive box of library constructor inputs',
             'All N2(2), N1(3) and two-level programs are flattened (as built / after unrolling): multiset of (kind, qubits, duration, tag) unchanged, no sub-circuit left, idempotent. '
@@ -58,10 +58,10 @@ CHECKS = {
     'C15': (MC, '4/C15', 'explicit-state exploration of build programs vs independent OpenQL translator on a recording platform',
             'All flat programs of length <= 2 over all 26 operation classes, all N2(2) programs and a two-level space are exported through to_openql with PlatformManager.construct_program / '
             'construct_kernel replaced (inside the checker) by recorders; the linearised call tree must equal the reference translation of the listing (gate table, cz + barrier + two phase updates, '
-            'wait duration, block position and multiplicity), the multiset of steps must be what the program's own leaves translate to, kernel names must be unique, exporting twice must give the same names and the names must not depend on what the process exported before (fresh interpreters, both orders). Thorough tier: the recorder is bound to real OpenQL by compiling a fixed family and parsing the cQASM.',
+            'wait duration, block position and multiplicity), the multiset of steps must be what the leaves of the program translate to, kernel names must be unique, exporting twice must give the same names and the names must not depend on what the process exported before (fresh interpreters, both orders). Thorough tier: the recorder is bound to real OpenQL by compiling a fixed family and parsing the cQASM.',
             'bounded program spaces; recording stand-in for the OpenQL platform (validated against real OpenQL in the thorough tier)'),
     'C12': (EX, '4/C12', 'exhaustive enumeration of experiment descriptions vs reference cycle layout',
-            'All lists of distinct round counts from {0..4} (thorough {0..6}) in any order x heralded on/off x calibration points on/off x repetitions 1..3 x five qubit sets (the caller's lists are changed after construction): kernel spans, contiguity, every index '
+            'All lists of distinct round counts from {0..4} (thorough {0..6}) in any order x heralded on/off x calibration points on/off x repetitions 1..3 x five qubit sets (the lists of the caller are changed after construction): kernel spans, contiguity, every index '
             'category of every involved (and an uninvolved) qubit compared with the reference layout, plus disjointness, containment, coverage with the documented missing slot, translation by the '
             'cycle length and the repetition estimate.',
             'finite input box; reference layout mc/ref/kernel.py'),
